@@ -109,6 +109,10 @@ GP2 == Generic(Portable(UEnum("GP2", 1, << <<>>, <<U8, LeU32, Vec(LeU16, LeU16)>
 SS8 == Struct("SS8", <<U8, Arr(SS3, 2), Arr(Unit, 3)>>)
 US12 == UStruct("US12", <<Arr(SE1, 2), Arr(Unit, 2), V_u8_u8>>)
 
+\* defaults on structs whose sized prefix ends off the struct's alignment, in front of a less aligned tail
+US13 == WithDefault(UStruct("US13", <<U32, U8, S_u8>>), 1)
+US14 == WithDefault(UStruct("US14", <<U64, U8, Vec(U16, U16)>>), 1)
+
 US5 == UStruct("US5", <<U8, UE1>>)
 X_us2_u16 == Flex(US2, U16)
 X_ue1_u8  == Flex(UE1, U8)
@@ -150,7 +154,8 @@ Core == <<
   C("V_u16_u64", V_u16_u64), C("S_u64", S_u64), C("X_u8_u64", X_u8_u64),
   C("GS1", GS1), C("GS2", GS2), C("GE1", GE1), C("GE2", GE2), C("GU1", GU1), C("GU2", GU2), C("GX1", GX1), C("GX2", GX2),
   C("GP1", GP1), C("GP2", GP2),
-  C("arr_unit_2", Arr(Unit, 2)), C("arr_ss3_2", Arr(SS3, 2)), C("arr_se1_2", Arr(SE1, 2)), C("SS8", SS8), C("US12", US12)
+  C("arr_unit_2", Arr(Unit, 2)), C("arr_ss3_2", Arr(SS3, 2)), C("arr_se1_2", Arr(SE1, 2)), C("SS8", SS8), C("US12", US12),
+  C("US13", US13), C("US14", US14)
 >>
 
 (***************************************************************************)
